@@ -224,10 +224,19 @@ class BaseSQLURLTable(BaseURLTable):
             return WARCVisit.get_revisit_id(session, url, payload_digest)
 
     def get_hostnames(self):
+        # Only the hosts of the start URLs. On a resumed crawl, the table also
+        # holds every URL discovered so far, including links to other hosts.
         hostnames = []
         with self._session() as session:
-            for row in session.query(Hostname.hostname):
-                hostnames.append(row[0])
+            query = session.query(URLString.url)\
+                .filter(QueuedURL.url_string_id == URLString.id)\
+                .filter(QueuedURL.level == 0)
+
+            for row in query:
+                hostname = URLInfo.parse(row[0]).hostname
+
+                if hostname not in hostnames:
+                    hostnames.append(hostname)
 
         return hostnames
 
